@@ -44,13 +44,19 @@ def table_fn(table):
     return fn
 
 
-def kwargs_for(c, V, fixed_dict):
+def kwargs_for(c, V, fixed_dict, explicit=False):
+    """explicit=False: arguments equal to their documented defaults are left out (the way a user writes them);
+    explicit=True: every argument spelled out.  Both encode the same configuration."""
     kw = {}
     wins = c["wins"]
     kw["kernel_functions"] = [c["kernel"]] * len(wins)
     kas = []
     for w in wins:
-        ka = {"normalize": bool(w["knorm"]), "offset": int(w["offset"])}
+        ka = {}
+        if explicit or w["knorm"]:
+            ka["normalize"] = bool(w["knorm"])
+        if explicit or w["offset"]:
+            ka["offset"] = int(w["offset"])
         if c["kernel"] == "geometric":
             ka["power"] = 0.5
         kas.append(ka)
@@ -112,7 +118,7 @@ def run_token(item):
     """item: {corpus, cfg, V, cells, extra: {ctor kwargs}, do_transform}"""
     C = _cls("token")
     c, V = item["cfg"], item["V"]
-    kw = kwargs_for(c, V, needs_fixed_dict(c))
+    kw = kwargs_for(c, V, needs_fixed_dict(c), item.get("explicit", False))
     kw.update(item.get("extra") or {})
     X = docs_of(item["corpus"])
     exp = expected_cells(item["cells"])
@@ -141,7 +147,7 @@ def run_timed(item):
     """item as run_token plus times (same shape as corpus) and shifts (list of time offsets)."""
     C = _cls("timed")
     c, V = item["cfg"], item["V"]
-    kw = kwargs_for(c, V, needs_fixed_dict(c))
+    kw = kwargs_for(c, V, needs_fixed_dict(c), item.get("explicit", False))
     for ka in kw["kernel_args"]:
         ka["delta"] = 1.0
     kw.update(item.get("extra") or {})
@@ -169,7 +175,7 @@ def run_timed(item):
 def run_multi(item):
     C = _cls("multi")
     c, V = item["cfg"], item["V"]
-    kw = kwargs_for(c, V, needs_fixed_dict(c))
+    kw = kwargs_for(c, V, needs_fixed_dict(c), item.get("explicit", False))
     kw.update(item.get("extra") or {})
     X = [[[TOKS[t] for t in ms] for ms in d] for d in item["corpus"]]
     exp = expected_cells(item["cells"])
@@ -193,7 +199,7 @@ def run_multi(item):
 def run_ngram(item):
     C = _cls("ngram")
     c, V = item["cfg"], item["V"]
-    kw = kwargs_for(c, V, False)
+    kw = kwargs_for(c, V, False, item.get("explicit", False))
     kw["ngram_size"] = item["N"]
     kw.update(item.get("extra") or {})
     X = docs_of(item["corpus"])
@@ -252,7 +258,7 @@ def run(item):
     fam = item["family"]
     C = _cls(fam)
     c, V = item["cfg"], item["V"]
-    kw = kwargs_for(c, V, needs_fixed_dict(c) and fam != "ngram")
+    kw = kwargs_for(c, V, needs_fixed_dict(c) and fam != "ngram", item.get("explicit", False))
     if fam == "timed":
         for ka in kw["kernel_args"]:
             ka["delta"] = 1.0
